@@ -178,10 +178,46 @@ func (s *Sched) doSelect(cases []SelCase, hasDefault bool, kind uint8) SelResult
 	}
 	pick := ready[0]
 	if len(ready) > 1 {
-		pick = ready[s.FreeChoice(len(ready), 's')]
-		if s.aborting {
-			return SelResult{I: -1}
+		// The runtime picks uniformly among ready cases, so every alternative is
+		// explored at no cost. Fairness bound: a case that was ready and passed
+		// over SelectFairness times in a row by this thread must be taken next
+		// (an execution that ignores a ready case for ever has probability 0 and
+		// would make every loop around a select look non-terminating).
+		forced := -1
+		for _, i := range ready {
+			if c := cases[i].c; t.starve[c] >= s.ex.SelectFairness {
+				if forced < 0 || t.starve[c] > t.starve[cases[forced].c] {
+					forced = i
+				}
+			}
 		}
+		if forced >= 0 {
+			pick = forced
+		} else {
+			pick = ready[s.FreeChoice(len(ready), 's')]
+			if s.aborting {
+				return SelResult{I: -1}
+			}
+		}
+		if t.starve == nil {
+			t.starve = map[*chanState]int{}
+		}
+		var sig uint64
+		for _, i := range ready {
+			c := cases[i].c
+			if i == pick {
+				delete(t.starve, c)
+			} else {
+				t.starve[c]++
+				sig += mix(c.obj.id, uint64(t.starve[c]))
+			}
+		}
+		t.hb = mix(t.hb, sig^0x5e1)
+	} else if len(t.starve) > 0 {
+		for k := range t.starve {
+			delete(t.starve, k)
+		}
+		t.hb = mix(t.hb, 0x5e10)
 	}
 	cs := cases[pick]
 	c := cs.c
